@@ -168,23 +168,16 @@ func singleKeyDiscriminator(c *an.Ctx) {
 			n++
 			list := an.AccessPath(ia.X)
 			host := k.Parent()
-			g := &an.Guard{Name: "len(keys) == 1", FailValue: an.AFalse, MatchValue: func(v ssa.Value) bool {
-				b, ok := v.(*ssa.BinOp)
-				if !ok || b.Op != token.EQL {
-					return false
-				}
-				one, isK := b.Y.(*ssa.Const)
-				if !isK || one.Value == nil || one.Value.String() != "1" {
-					return false
-				}
-				lc, isCall := b.X.(*ssa.Call)
+			// len(keys) != 1, in either spelling, must exclude the single-key derivation
+			gs := relGuards("len(keys) == 1", token.NEQ, func(v ssa.Value) bool {
+				lc, isCall := v.(*ssa.Call)
 				if !isCall {
 					return false
 				}
 				bi, isB := lc.Call.Value.(*ssa.Builtin)
 				return isB && bi.Name() == "len" && an.AccessPath(lc.Call.Args[0]) == list
-			}}
-			v := an.Guarded(c.P, host, []*an.Guard{g}, func(in ssa.Instruction) bool { return in == ssa.Instruction(k) }, false)
+			}, isConstVal("1"))
+			v := an.Guarded(c.P, host, gs, func(in ssa.Instruction) bool { return in == ssa.Instruction(k) }, false)
 			c.Check(v.Holds && v.GuardSites >= 1, "siblings|SignedAddr|single-key-iff-one-key|"+an.FuncName(host), "the single-key account AddressFromPubKey(keys[0]) is derived only when the key list has exactly one key (as the validator does); with several keys the multi-signature account is the signer",
 				c.P.Rel(k.Pos()), fmt.Sprintf("AddressFromPubKey(%s[0]) is not behind the test len(%s) == 1: %s", list, list, v.Witness))
 		}
